@@ -10,6 +10,7 @@ def run(ctx):
     ctx.run(T.tbl11_json_renderers)
     ctx.run(S.ord14_multi_query_positional)
     ctx.run(B.tbl25_decoder_validates_what_the_applier_assumes)
+    ctx.run(T.tbl11_signature_scan_sees_every_value)
     return ctx.finish(
         'Static analysis: every handler that runs a query maps the error to a non-2xx response '
         'and none unwraps it; insert_bin answers 200 only on the Ready edge of the ingestion future '
